@@ -134,6 +134,16 @@ def rules(rep, m):
     okal = idxs and re.fullmatch(r"floor\(\(%s->n \* ldexp\(.*\)\)\)" % ap, idxs[0]) is not None
     if okal and rets:
         okal = re.fullmatch(r"\(.* \? %s->alias\[.+\] : .+\)" % ap, rets[0]) is not None
+        if not okal:
+            # the same choice spelled with an if: every value the returned local is given is the column or its alias
+            rn = [strip(kids(x)[0], casts=True) for x in walk(als.body) if x["kind"] == "ReturnStmt" and kids(x)]
+            if len(rn) == 1 and rn[0]["kind"] == "DeclRefExpr":
+                vid = rn[0]["ref"]["id"]
+                vals_ = [render(strip(kids(d_)[0], casts=True)) for d_ in walk(als.body) if d_["kind"] == "VarDecl" and d_["id"] == vid and kids(d_)]
+                vals_ += [render(strip(r_, casts=True)) for l_, r_, k_, n_ in inv.stores(als)
+                          if r_ is not None and k_ == "=" and strip(l_, casts=True).get("ref", {}).get("id") == vid]
+                okal = bool(vals_) and all(v_ == "idx" or re.fullmatch(r"(%s->)?alias\[idx\]" % ap, v_) for v_ in vals_) and \
+                    any("alias[" in v_ for v_ in vals_) and "idx" in vals_
     if not okal:
         rep.finding(r3, als.name, "alias:index", "the alias sampler's index is %s and it returns %s: not 'floor(n * u)' with the "
                     "column itself or its alias" % (idxs, rets), where=m.rel(als.where))
@@ -162,20 +172,18 @@ def rules(rep, m):
                   "(binomial in [0, n]); the Bernoulli trial returns only 0 or 1", floor=2)
     bn = m.need("cmb_random_binomial")
     bx = FuncCtx(m, bn)
-    lps = [x for x in walk(bn.body) if x["kind"] == "ForStmt"]
+    lps = [x for x in walk(bn.body) if x["kind"] in ("ForStmt", "WhileStmt")]
     okb = False
     if len(lps) == 1:
-        ch = kids(lps[0])
-        iv = None
-        for x in walk(ch[0]):
-            if x["kind"] == "VarDecl" and kids(x):
-                iv = (x["name"], int_value(kids(x)[0]))
-        b = bx.canon(ch[2])
-        adds = [(render(kids(y)[0]), bx.canon(kids(y)[1])) for y in walk(ch[4]) if y["kind"] == "CompoundAssignOperator" and y.get("opcode") == "+="]
+        ivs_, gd_ = inv.induction_vars(bx, bn, lps[0])
+        trip = inv.trip_count(ivs_, gd_)
+        body_ = kids(lps[0])[-1]
+        adds = [(render(kids(y)[0]), bx.canon(kids(y)[1])) for y in walk(body_) if y["kind"] == "CompoundAssignOperator" and y.get("opcode") == "+="]
         rets = [render(kids(x)[0]) for x in walk(bn.body) if x["kind"] == "ReturnStmt"]
-        r4.instance("binomial: %s while %s: %s; returns %s" % (iv, b, adds, rets))
-        okb = iv and iv[1] == 0 and b == "(%s < %s)" % (iv[0], bn.params[0]["name"]) and len(adds) == 1 and \
-            adds[0][0] == (rets[0] if rets else None) and "<=" in adds[0][1] and "? 1 : 0" in adds[0][1]
+        r4.instance("binomial: %s round(s): %s; returns %s" % (trip, adds, rets))
+        # exactly n rounds, each adding one Bernoulli outcome (the 0/1 function, inlined or called) to the value returned
+        okb = trip == bn.params[0]["name"] and len(adds) == 1 and adds[0][0] == (rets[0] if rets else None) and \
+            (("<=" in adds[0][1] and "? 1 : 0" in adds[0][1]) or re.fullmatch(r"cmb_random_bernoulli\(\w+\)", adds[0][1]) is not None)
     if not okb:
         rep.finding(r4, bn.name, "binomial:count", "the binomial sampler does not add one 0/1 trial per iteration over exactly n "
                     "iterations", where=m.rel(bn.where))
